@@ -179,6 +179,10 @@ def e_IfExp(self, n, st):
     return r.with_taint(taint_of(cv)) if taint_of(cv) else r
 
 
+FINFO = {'eps': 2.220446049250313e-16, 'tiny': 2.2250738585072014e-308, 'smallest_normal': 2.2250738585072014e-308,
+         'max': 1.7976931348623157e+308, 'min': -1.7976931348623157e+308, 'resolution': 1e-15, 'epsneg': 1.1102230246251565e-16}
+
+
 def truth(self, v, node=None):
     """True / False / None(unknown)"""
     if isinstance(v, Const):
@@ -190,6 +194,10 @@ def truth(self, v, node=None):
         return True
     if isinstance(v, Tup):
         return len(v.items) > 0
+    if isinstance(v, IntV) and v.a is not None:
+        sg = v.a.sign()          # an integer that is non-zero (zero) for every admissible size
+        if sg is not None:
+            return sg != 0
     return None
 
 
@@ -522,7 +530,39 @@ def binop(self, op, va, vb, node):
     r_ = _binop(self, op, va, vb, node)
     _int_dtype(self, op, va, vb, r_, node)
     _fs_fraction(op, va, vb, r_)
+    _centred(op, va, vb, r_)
+    _pow2_bound(op, va, vb, r_)
     return r_
+
+
+def _pow2_bound(op, va, vb, r):
+    """2 ** ceil(log2(n)) >= n and 2 ** floor(log2(n)) <= n (also written 1 << k): the size bound travels with the result"""
+    two = isinstance(va, Const) and va.v in (2, 2.0) and isinstance(op, ast.Pow)
+    one = isinstance(va, Const) and va.v == 1 and isinstance(op, ast.LShift)
+    if not (two or one) or isinstance(r, Const):
+        return
+    try:
+        if getattr(vb, 'clog2', None) is not None:
+            r.lb = vb.clog2
+        if getattr(vb, 'flog2', None) is not None:
+            r.ub = vb.flog2
+    except AttributeError:
+        pass
+
+
+def _centred(op, va, vb, r):
+    """mean-removed moments (numpy.var / std: label CEN:n in the dependence set) stay mean-removed under products with
+    anything and sums with other mean-removed or data-free values; adding a data-dependent value that is not mean-removed
+    (var(x) + |mean(x)|**2 is the mean square again) ends the label"""
+    if not isinstance(op, (ast.Add, ast.Sub)) or not isinstance(r, Num):
+        return
+    ta, tb = taint_of(va), taint_of(vb)
+    ca = frozenset(l for l in ta if isinstance(l, str) and l.startswith('CEN:'))
+    cb = frozenset(l for l in tb if isinstance(l, str) and l.startswith('CEN:'))
+    if ca and not cb and 'x' in tb:
+        r.taint = r.taint - ca
+    elif cb and not ca and 'x' in ta:
+        r.taint = r.taint - cb
 
 
 def _fs_fraction(op, va, vb, r):
@@ -747,8 +787,11 @@ def origin_of(va, vb, r, op=None):
                 and not (isinstance(sc_, Num) and sc_.is_array) and getattr(arr_, 'idx', False) \
                 and (arr_ is va or isinstance(op, ast.Add)):
             c = _asint(sc_)
-            if c is not None and c.a is not None:
-                r.org = arr_.org + (c.a if isinstance(op, ast.Sub) else -c.a)
+            ca_ = c.a if c is not None else None
+            if ca_ is None and isinstance(sc_, Num) and sc_.shape == () and sc_.ex is not None and sc_.ex.is_integral():
+                ca_ = sc_.ex          # float(N - 1): an integer held as a float
+            if ca_ is not None:
+                r.org = arr_.org + (ca_ if isinstance(op, ast.Sub) else -ca_)
                 r.idx = True
             else:
                 r.org = None        # an index vector shifted by something that is not a known integer
@@ -944,11 +987,25 @@ def compare_vals(self, op, a, b, node):
     return r
 
 
+def _int_like(v):
+    i = _asint(v)
+    if i is not None:
+        return i.a
+    if isinstance(v, Const) and isinstance(v.v, float) and v.v == int(v.v):
+        return Aff(int(v.v))
+    return None
+
+
 def e_Compare(self, n, st):
     left = self.eval(n.left, st)
     res = None
+    links = []
     for op, c in zip(n.ops, n.comparators):
         right = self.eval(c, st)
+        la_, ra_ = _int_like(left), _int_like(right)
+        links.append((op, la_, ra_) if la_ is not None and ra_ is not None else None)
+        if len(links) == len(n.ops) and all(l_ is not None for l_ in links):
+            self.cmp_affs[id(n)] = links
         r = self.compare_vals(op, left, right, n)
         if res is None:
             res = r
@@ -1073,6 +1130,8 @@ def attr_of(self, v, attr, st, n):
         return ExtV('str.' + attr, bound=v)
     if isinstance(v, Const) and isinstance(v.v, dict):
         return ExtV('dict.' + attr, bound=v)
+    if isinstance(v, Tup) and attr in (getattr(v, 'fields', None) or ()):
+        return v.items[v.fields.index(attr)]          # a field of a namedtuple
     if isinstance(v, (Tup, SeqV)) or (isinstance(v, Const) and isinstance(v.v, (list, tuple))):
         return ExtV('list.' + attr, bound=v)
     if isinstance(v, ExtV):
@@ -1083,6 +1142,8 @@ def attr_of(self, v, attr, st, n):
     if isinstance(v, Opaque):
         if v.what.startswith('window:') and attr == 'data':
             return v.data
+        if v.what == 'finfo:finfo' and attr in FINFO:
+            return Const(FINFO[attr])
         return ExtV('opaque.' + attr, bound=v)
     if isinstance(v, TopV):
         return TopV('attr of top', v.taint)
@@ -1470,7 +1531,35 @@ def index_value(self, v, idx, node):
             # x[order] with order a concatenation of aranges: the pieces are slices of x
             from . import segmap
             parts_ = []
+            pieces_ = []
             for (pn, p0, pst) in idxs[0].idxseg:
+                # negative values count from the end: a run that passes through zero is two runs of the array
+                last_ = p0 + (pn - 1).scale(pst) if (p0 is not None and pn is not None) else None
+                def sgn_(a_):
+                    if a_ is None:
+                        return None
+                    if a_.is_const():
+                        return 1 if a_.c >= 0 else -1
+                    if a_.nonneg():
+                        return 1
+                    s_ = a_.sign()
+                    return -1 if s_ == -1 else (1 if s_ in (0, 1) else None)
+                s0_, s1_ = sgn_(p0), sgn_(last_)
+                if s0_ is None or s1_ is None:
+                    pieces_ = None
+                    break
+                if s0_ == s1_:
+                    pieces_.append((pn, p0, pst))
+                elif pst == -1 and s0_ == 1:
+                    pieces_.append((p0 + 1, p0, -1))
+                    pieces_.append((pn - p0 - 1, Aff(-1), -1))
+                elif pst == 1 and s0_ == -1:
+                    pieces_.append((-p0, p0, 1))
+                    pieces_.append((pn + p0, Aff(0), 1))
+                else:
+                    pieces_ = None
+                    break
+            for (pn, p0, pst) in (pieces_ or []):
                 p0a = segmap.norm_index(p0, shape[0])
                 p0a = p0a if p0a is not None else p0
                 if pst == 1:
@@ -1479,7 +1568,7 @@ def index_value(self, v, idx, node):
                     piece = segmap.take(v.seg, p0a - pn + 1, p0a + 1)
                     piece = segmap.reverse(piece) if piece is not None else None
                 parts_.append(piece)
-            if all(p_ is not None for p_ in parts_):
+            if pieces_ and all(p_ is not None for p_ in parts_):
                 r.seg = segmap.concat(parts_)
                 r.shape = (segmap.length(r.seg),)
         if len(shape) == 1 and len(idxs) == 1 and isinstance(idxs[0], Num) and idxs[0].grid is not None and idxs[0].shape is not None \
